@@ -579,7 +579,11 @@ func (t *stdioClientTransport) sendErrorResponse(request *JSONRPCRequest, code i
 		return
 	}
 
-	if err := t.encoder.Encode(json.RawMessage(errorBytes)); err != nil {
+	// The encoder is shared with the application goroutines that send requests and notifications.
+	t.requestMutex.Lock()
+	err = t.encoder.Encode(json.RawMessage(errorBytes))
+	t.requestMutex.Unlock()
+	if err != nil {
 		t.logger.Errorf("Failed to send error response: %v", err)
 	}
 }
